@@ -278,7 +278,7 @@ func c10CLI(c *fw.Ctx) fw.Outcome {
 	in := filepath.Join(c.TmpDir(), "in.srt")
 	out := filepath.Join(c.TmpDir(), "out.srt")
 	os.WriteFile(in, []byte(simpleSRT(cs)), 0o644)
-	os.Remove(out)
+	out = outPath(r, in, out)
 	key := hashCues(cs, uint64(f), 0xc10)
 	msg, err := cli("fragment", "-i", in, "-f", time.Duration(f).String(), "-o", out)
 	if err != nil {
